@@ -153,12 +153,13 @@ package v2
 //@   property C01
 //@   nopanic
 //@   overflow: assumed
-//@   modifies wb.entries, wb.currentSize, arrays(wb.entries)
+//@   modifies wb.entries, wb.currentSize, wb.entries[0..cap(wb.entries)]
 //@   ensures[appended] len(wb.entries) == old(len(wb.entries)) + 1
 //@   ensures[last] wb.entries[len(wb.entries)-1].Operation == entry.Operation && wb.entries[len(wb.entries)-1].Key == entry.Key && len(wb.entries[len(wb.entries)-1].Data) == len(entry.Data) && sliceid(wb.entries[len(wb.entries)-1].Data) == sliceid(entry.Data)
 //@   ensures[others_kept] forall i in 0..old(len(wb.entries)): wb.entries[i].Operation == old(wb.entries[i].Operation) && len(wb.entries[i].Key) == old(len(wb.entries[i].Key)) && len(wb.entries[i].Data) == old(len(wb.entries[i].Data))
 //@   ensures[size] wb.currentSize == old(wb.currentSize) + 7 + len(entry.Key) + len(entry.Data)
 //@   ensures[full] full <==> wb.currentSize >= wb.maxSize
+//@   ensures[backing_same_or_fresh] sliceid(wb.entries) == old(sliceid(wb.entries)) || fresh(wb.entries)
 
 // Flush: the block header's 16-bit entry count is exactly the number of buffered entries
 // (so it must fit), and the buffer is emptied.
@@ -175,6 +176,7 @@ package v2
 //@   ensures[empty_buffer_untouched] old(len(wb.entries)) == 0 ==> wb.currentSize == old(wb.currentSize)
 //@   ensures[kept_on_error] err != nil ==> len(wb.entries) == old(len(wb.entries)) && wb.currentSize == old(wb.currentSize)
 //@   ensures[snappy_never_fails] err == nil
+//@   ensures[backing_kept] sliceid(wb.entries) == old(sliceid(wb.entries))
 
 // serializeEntries: every buffered entry is encodable when it is serialised.
 //@ func (*WriteBuffer).serializeEntries(wb) (out)
@@ -192,7 +194,8 @@ package v2
 //@   nopanic
 //@   overflow: assumed
 //@   rely[no_earlier_io_fault] fpos(fw.file) == flen(fw.file) && flen(fw.file) >= 64 + fw.header.NameLength
-//@   modifies fw.buffer.entries, fw.buffer.currentSize, arrays(fw.buffer.entries), fw.closed, fw.blockCount, fw.entryCount, all(fw.header), file(fw.file)
+//@   modifies fw.buffer.entries, fw.buffer.currentSize, fw.buffer.entries[0..cap(fw.buffer.entries)], fw.closed, fw.blockCount, fw.entryCount, all(fw.header), file(fw.file)
+//@   ensures[backing_same_or_fresh] sliceid(fw.buffer.entries) == old(sliceid(fw.buffer.entries)) || fresh(fw.buffer.entries)
 //@   ensures[rejects_unencodable] (len(entry.Key) < 1 || len(entry.Key) > 65535 || len(entry.Data) > 2147483647) ==> err != nil
 //@   csensures[rejected_entry_not_buffered] (len(entry.Key) < 1 || len(entry.Key) > 65535 || len(entry.Data) > 2147483647) ==> len(fw.buffer.entries) == old(len(fw.buffer.entries)) && fw.buffer.currentSize == old(fw.buffer.currentSize)
 
@@ -214,6 +217,7 @@ package v2
 //@   ensures[C25:failed_flush_keeps_entries] err != nil ==> len(fw.buffer.entries) == old(len(fw.buffer.entries))
 //@   ensures[buffer_emptied_by_every_flush_attempt] len(fw.buffer.entries) == 0 && (old(len(fw.buffer.entries)) > 0 ==> fw.buffer.currentSize == 0)
 //@   ensures[empty_buffer_untouched] old(len(fw.buffer.entries)) == 0 ==> fw.buffer.currentSize == old(fw.buffer.currentSize)
+//@   ensures[backing_kept] sliceid(fw.buffer.entries) == old(sliceid(fw.buffer.entries))
 //@   ensures[flushed] err == nil ==> len(fw.buffer.entries) == 0 && (old(len(fw.buffer.entries)) > 0 ==> fw.buffer.currentSize == 0)
 
 // ---------------------------------------------------------------------------------------
@@ -267,7 +271,7 @@ package v2
 //@   property C29 C04 C03
 //@   nopanic
 //@   modifies ghost("stat_file")
-//@   ensures[reader_ready] err == nil ==> fr != nil && fresh(fr) && fr.file != nil && fr.header != nil
+//@   ensures[reader_ready] err == nil ==> fr != nil && fresh(fr) && fr.file != nil && fresh(fr.file) && fr.header != nil
 //@   ensures[complete_file_opens] len(filePath) > 0 && isnil(lastret("Open", 1)) && calls("FileHeader.Deserialize") == old(calls("FileHeader.Deserialize")) + 1 && isnil(lastret("FileHeader.Deserialize")) && flen(lastret("Open")) >= 64 + fbyte(lastret("Open"), 44) + 256 * fbyte(lastret("Open"), 45) ==> err == nil
 //@   ensures[v3_name_is_the_stored_bytes] err == nil && fr.header.Version == 3 ==> len(fr.swampName) == fr.header.NameLength && forall i in 0..len(fr.swampName): fr.swampName[i] == fbyte(fr.file, 64 + i)
 //@   ensures[v3_name_length_field] err == nil && fr.header.Version == 3 ==> fr.header.NameLength == fbyte(fr.file, 44) + 256 * fbyte(fr.file, 45)
@@ -313,6 +317,7 @@ package v2
 //@   nopanic
 //@   modifies ghost("stat_file")
 //@   ensures[writer_ready] err == nil ==> fw != nil && fresh(fw) && fw.buffer != nil && fw.header != nil && fw.file != nil
+//@   ensures[buffer_private] err == nil ==> fresh(fw.buffer) && fresh(fw.header) && fresh(fw.file) && (isnil(fw.buffer.entries) || fresh(fw.buffer.entries))
 //@   ensures[failed] err != nil ==> fw == nil
 
 //@ func (*FileWriter).Close(fw) (result)
@@ -339,11 +344,13 @@ package v2
 //@   property C03
 //@   nopanic
 //@   overflow: assumed
-//@   modifies *
+//@   modifies ghost("stat_file")
 //@   before NewFileWriterWithName [stale_temp_removed_first] calledwith("Remove", 0, arg0) && calls("Rename") == old(calls("Rename"))
 //@   before FileWriter.WriteEntry [writes_live_binding] arg1.Operation == OpInsert && has(index, arg1.Key) && sliceid(arg1.Data) == sliceid(index[arg1.Key]) && len(arg1.Data) == len(index[arg1.Key])
 //@   before Rename [renames_only_complete_temp] (forall k in keys(index): visited(k)) && isnil(lastret("FileWriter.Close")) && calls("FileWriter.Close") == old(calls("FileWriter.Close")) + 1
 //@   before Rename [renames_temp_over_original] calledwith("NewFileWriterWithName", 0, arg0) && arg1 == filePath
+//@   loop 0 invariant[only_fresh_memory_written] entrymem()
+//@   loop 0 invariant[writer_private] writer != nil && fresh(writer) && writer.buffer != nil && fresh(writer.buffer) && writer.header != nil && fresh(writer.header) && writer.file != nil && fresh(writer.file) && (isnil(writer.buffer.entries) || fresh(writer.buffer.entries))
 //@   loop 0 invariant[index_untouched] mapsame(index)
 //@   ensures[failure_keeps_original] result != nil ==> calls("Rename") == old(calls("Rename")) || !isnil(lastret("Rename"))
 //@   ensures[reports_compacted_only_after_rename] res != nil && res.Compacted ==> calls("Rename") == old(calls("Rename")) + 1 && isnil(lastret("Rename"))
@@ -354,11 +361,13 @@ package v2
 //@   property C03
 //@   nopanic
 //@   overflow: assumed
-//@   modifies *
+//@   modifies c.isRunning, ghost("stat_file")
 //@   before NewFileWriterWithName [stale_temp_removed_first] calledwith("Remove", 0, arg0) && calls("Rename") == old(calls("Rename"))
 //@   before FileWriter.WriteEntry [writes_live_binding] arg1.Operation == OpInsert && has(index, arg1.Key) && sliceid(arg1.Data) == sliceid(index[arg1.Key]) && len(arg1.Data) == len(index[arg1.Key])
 //@   before Rename [renames_only_complete_temp] (forall k in keys(index): visited(k)) && isnil(lastret("FileWriter.Close")) && calls("FileWriter.Close") == old(calls("FileWriter.Close")) + 1 && isnil(lastret("FileReader.LoadIndex", 2))
 //@   before Rename [renames_temp_over_original] calledwith("NewFileWriterWithName", 0, arg0) && arg1 == c.filePath
+//@   loop 0 invariant[only_fresh_memory_written] entrymem("Compactor.isRunning")
+//@   loop 0 invariant[writer_private] writer != nil && fresh(writer) && writer.buffer != nil && fresh(writer.buffer) && writer.header != nil && fresh(writer.header) && writer.file != nil && fresh(writer.file) && (isnil(writer.buffer.entries) || fresh(writer.buffer.entries))
 //@   loop 0 invariant[index_untouched] mapsame(index)
 //@   ensures[at_most_one_rename] calls("Rename") <= old(calls("Rename")) + 1
 //@   ensures[reports_compacted_only_after_rename] res != nil && res.Compacted ==> calls("Rename") == old(calls("Rename")) + 1 && isnil(lastret("Rename"))
